@@ -159,6 +159,18 @@ pub fn sub_phantom_weak<T: ?Sized + Trace>(cc: &Cc<T>, n: u16) -> bool {
     unsafe { cc.inner().get_metadata_unchecked().as_ref() }.weak_counter_marker.verif_sub_counter(n)
 }
 
+/// The phase flags of the collector of the current thread: (collecting, finalizing, dropping).
+#[inline(never)]
+pub fn phase_flags() -> (bool, bool, bool) {
+    crate::state::try_state(|state| {
+        #[cfg(feature = "finalization")]
+        let finalizing = state.is_finalizing();
+        #[cfg(not(feature = "finalization"))]
+        let finalizing = false;
+        (state.is_collecting(), finalizing, state.is_dropping())
+    }).unwrap_or((false, false, false))
+}
+
 /// Returns the current byte threshold of the automatic collection policy.
 #[cfg(feature = "auto-collect")]
 #[inline]
